@@ -248,6 +248,7 @@ func runC17(r *Report) {
 	ruleByteAPICopies(r)
 	ruleSyncFailureRollsBack(r)
 	ruleStickyWriteError(r)
+	ruleReplayCountsEveryMutation(r)
 	// the string flavour's own validation returns the same sentinel
 	if fn := p.Func("simpledb.DB.Put"); fn != nil {
 		key := rd + "/simpledb.DB.Put/same-sentinel"
